@@ -223,6 +223,23 @@ def run(ctx):
             # a section after the candidate must not change the verdict
             check_line(line, obs, follow=b'#..file:\n#...meta: length=3\n{}\n')
             n += 1
+    # block-boundary lengths: grammatical headers of 90..100, 186..196,
+    # 282..292 bytes (before the line ending), as 2nd and as 3rd line, in LF
+    # and CRLF files
+    if ctx.index == 1 % ctx.n:
+        for total in list(range(90, 101)) + list(range(186, 197)) + \
+                list(range(282, 293)):
+            base = b'#.change: p='
+            line = base + b'v' * (total - len(base))
+            for nl in (b'\n', b'\r\n'):
+                check_line(line, obs, nl)
+                check_line(line, obs, nl,
+                           follow=b'#..file:' + nl + b'#...meta: length=3' +
+                           nl + b'{}\n')
+                # an invalid one of the same length must still be rejected
+                check_line(line[:-1] + b'+', obs, nl)
+                n += 3
+                obs.count('enum:block_boundary')
     # CR variants
     if ctx.index == 0:
         for line in (b'#.change: a=b', b'#.change:', b'#.change: a=b\r',
